@@ -180,8 +180,30 @@ def run(chk):
                 check_file("z%d.bin" % found, data, seed, True)
                 found += 1
         stats["leading_zero_searched"] = found
+        # equal relative names in two input directories, different contents, same tag instances (a digest remembered
+        # per relative path or per name shows here)
+        d2 = os.path.join(root, "other", "in")
+        os.makedirs(d2)
+        for i, (l1, l2) in enumerate([(10, 11), (0, 5), (chunk, chunk), (300, 300)]):
+            nm = "same%d.bin" % i
+            for dd, ln, sd in ((d, l1, 1000 + i), (d2, l2, 2000 + i)):
+                data = lcg_bytes(sd, ln)
+                with open(os.path.join(dd, nm), "wb") as fh:
+                    fh.write(data)
+            for dd, ln, sd in ((d, l1, 1000 + i), (d2, l2, 2000 + i), (d, l1, 1000 + i)):
+                data = lcg_bytes(sd, ln)
+                f = impl.mkfile(dd, nm)
+                for t in tags:
+                    got = pats[t].process(f)
+                    chk.count(("tag-two-roots", t, i, dd == d))
+                    if got != std[t](data):
+                        chk.oracle_fail("%%%s() rendered %r for %s, the digest of ITS content is %r (a file of the same relative name exists in another input directory)"
+                                        % (t, got, os.path.join(os.path.basename(os.path.dirname(dd)), nm), std[t](data)),
+                                        {"tag": t, "file": nm, "two_roots": True, "lengths": [l1, l2]})
+            os.unlink(os.path.join(d, nm)); os.unlink(os.path.join(d2, nm))
+        stats["two_roots_same_name"] = 4
         # large files: implementation vs one-shot only
-        for size in ([1 << 20] if chk.tier == "quick" else [1 << 20, (1 << 24) + 1]):
+        for size in ([1 << 20, (1 << 20) + 1, (1 << 20) + 4097 + 65536] if chk.tier == "quick" else [1 << 20, (1 << 20) + 1, (1 << 21) + 70001, (1 << 24) + 1]):
             seed = rng.randrange(65536)
             data = (lcg_bytes(seed, 65536) * (size // 65536 + 1))[:size]
             check_file("big%d.bin" % size, data, seed, False)
